@@ -142,6 +142,14 @@ class Ctx:
             old = None
         try:
             from . import nf as _nf
+            if os.environ.get('MV_CANCEL_SURVEY'):
+                _nf.CANCEL_LOG = []
+                try:
+                    return fn()
+                finally:
+                    for a_, b_, n_ in _nf.CANCEL_LOG[:6]:
+                        print('CANCEL', rule, instance, n_, repr(a_)[:90], '|', repr(b_)[:90], flush=True)
+                    _nf.CANCEL_LOG = None
             if not _nf.DIV_TRACK:
                 # the rules compare normal forms, which cancel common factors: a division whose divisor cancels out of the result is invisible
                 # to them and undefined where the divisor vanishes (`(|x-c| / r) * r` for a sphere of radius 0) — interp.removable_divisions
